@@ -1,6 +1,7 @@
 /-
   C18 — Grid <-> table conversions preserve every value at its own coordinates.
 -/
+import VerdeModel.Gen.MakeGrid
 import VerdeModel.Gen.Grid
 import VerdeModel.Lemmas.Grid
 import VerdeModel.Lemmas.Num
@@ -241,5 +242,142 @@ theorem gen_grid_to_table_eq_model (ds : Dataset) (keys : List String)
   simp only [Dataset.extraOf, Dataset.varOf, List.zip_cons_cons]
   rw [hex', hv', ravel_mesh_north, ravel_mesh_east]
   simp
+
+/-! ### Bridge: `make_xarray_grid`, `meshgrid_to_1d`, `check_extra_coords_names` regenerated from source (Gen/MakeGrid.lean) -/
+
+theorem gen_check_extra_names (e n : CoordArr) (extras : List Arr2) (names : Option (List String)) :
+    Gen.checkExtraCoordsNames (e :: n :: extras.map .d2) names = checkNames extras.length names := by
+  unfold Gen.checkExtraCoordsNames checkNames
+  cases names with
+  | none => rfl
+  | some ns =>
+    simp only [List.drop_succ_cons, List.drop_zero, List.length_map]
+    by_cases h : ns.length = extras.length
+    · simp [h, pure, Except.pure]
+    · have : extras.length ≠ ns.length := fun x => h x.symm
+      simp [h, this, bind, Except.bind, throw, throwThe, MonadExceptOf.throw]
+
+theorem gen_check_data_names' (k : Nat) (names : Option (List String)) :
+    (match names with | some n => Gen.checkDataNames k n | none => (throw Err.valueError : Except Err (List String))) = checkNames k names := by
+  unfold checkNames
+  cases names with
+  | none => rfl
+  | some ns =>
+    unfold Gen.checkDataNames
+    by_cases h : ns.length = k
+    · subst h; simp [pure, Except.pure]
+    · have : k ≠ ns.length := fun x => h x.symm
+      simp [h, this, bind, Except.bind, throw, throwThe, MonadExceptOf.throw]
+
+theorem checkNames_length (k : Nat) (x : Option (List String)) (v : List String) (h : checkNames k x = .ok v) : v.length = k := by
+  unfold checkNames at h
+  cases x with
+  | none => cases h
+  | some ns =>
+    simp only at h
+    split_ifs at h with hl
+    cases h; exact hl
+
+theorem zip_snd {α β : Type} (v : List α) (l : List β) (h : v.length = l.length) : (v.zip l).map (·.2) = l :=
+  List.map_snd_zip (by omega)
+
+/-- Everything `make_xarray_grid` does once the horizontal coordinates are 1-D. -/
+theorem makegrid_tail (e n : List Rat) (extras : List Arr2) (data : Option (List Arr2)) (names : Option (List String)) (dims : String × String)
+    (exn : Option (List String)) (hd : dims.1 ≠ dims.2) :
+    (do
+      let coords := [(dims.2, (CoordArr.d1 e :: CoordArr.d1 n :: extras.map CoordArr.d2).getD 0 (.d1 [])),
+                     (dims.1, (CoordArr.d1 e :: CoordArr.d1 n :: extras.map CoordArr.d2).getD 1 (.d1 []))]
+      let extra ← (if ((CoordArr.d1 e :: CoordArr.d1 n :: extras.map CoordArr.d2).drop 2).isEmpty then pure [] else do
+          let extra_coords_names ← Gen.checkExtraCoordsNames (CoordArr.d1 e :: CoordArr.d1 n :: extras.map CoordArr.d2) exn
+          pure (extra_coords_names.zip (((CoordArr.d1 e :: CoordArr.d1 n :: extras.map CoordArr.d2).drop 2).map CoordArr.toArr2)))
+      let data_vars ← (match data with
+        | none => pure none
+        | some data => do
+          let data_names ← (match names with | some n => Gen.checkDataNames data.length n | none => throw Err.valueError)
+          pure (some (data_names.zip data)))
+      xrDataset dims coords extra data_vars : Except Err Dataset)
+    = (do
+      let exNames ← if extras.isEmpty then pure [] else checkNames extras.length exn
+      let (dNames, dArrs) ← match data with
+        | none => pure ([], [])
+        | some ds => do let ns ← checkNames ds.length names; pure (ns, ds)
+      if !((extras ++ dArrs).all fun a => isRect a n.length e.length) then Except.error Err.valueError
+      pure ⟨dims, e, n, exNames.zip extras, dNames.zip dArrs⟩) := by
+  have hmap : (extras.map CoordArr.d2).map CoordArr.toArr2 = extras := by simp [Function.comp_def, CoordArr.toArr2]
+  have hne : (dims.2 == dims.1) = false := by simp; exact fun h => hd h.symm
+  have hxr : ∀ (ex : List (String × Arr2)) (vs : Option (List (String × Arr2))),
+      xrDataset dims [(dims.2, CoordArr.d1 e), (dims.1, CoordArr.d1 n)] ex vs
+        = (if !((ex.map (·.2) ++ (vs.getD []).map (·.2)).all fun a => isRect a n.length e.length) then .error .valueError
+           else .ok ⟨dims, e, n, ex, vs.getD []⟩) := by
+    intro ex vs
+    simp [xrDataset, List.find?, hne]
+  simp only [List.getD_cons_zero, List.getD_cons_succ, List.drop_succ_cons, List.drop_zero, gen_check_extra_names, gen_check_data_names', hmap,
+    List.isEmpty_map, hxr, bind, Except.bind, pure, Except.pure]
+  by_cases hemp : extras.isEmpty = true
+  · have he : extras = [] := List.isEmpty_iff.mp hemp
+    subst he
+    simp only [List.isEmpty_nil, if_true, List.map_nil, List.nil_append, List.zip_nil_right]
+    cases data with
+    | none => simp
+    | some ds =>
+      simp only []
+      cases hc : checkNames ds.length names with
+      | error er => rfl
+      | ok v =>
+        simp only [Option.getD_some, zip_snd v ds (checkNames_length _ _ _ hc)]
+  · simp only [hemp, if_false, Bool.false_eq_true]
+    cases hx : checkNames extras.length exn with
+    | error er => rfl
+    | ok v =>
+      simp only [zip_snd v extras (checkNames_length _ _ _ hx)]
+      cases data with
+      | none => simp
+      | some ds =>
+        simp only []
+        cases hc : checkNames ds.length names with
+        | error er => rfl
+        | ok v1 =>
+          simp only [Option.getD_some, zip_snd v1 ds (checkNames_length _ _ _ hc)]
+
+/-- **Bridge.**  `make_xarray_grid` as regenerated from the source (with the regenerated `meshgrid_to_1d` and `check_extra_coords_names`) is the
+    model's `makeGrid`, for 1-D and 2-D horizontal coordinates, any extras, data, names and distinct dimension names. -/
+theorem gen_make_xarray_grid_eq_model (east north : CoordArr) (extras : List Arr2) (data : Option (List Arr2)) (names : Option (List String))
+    (dims : String × String) (exn : Option (List String)) (hd : dims.1 ≠ dims.2) :
+    Gen.makeXarrayGrid (east :: north :: extras.map .d2) data names dims exn = makeGrid east north extras data names dims exn := by
+  unfold Gen.makeXarrayGrid makeGrid
+  cases east with
+  | d1 e => cases north with
+    | d1 n =>
+      simp only [List.take_succ_cons, List.take_zero, ndimHorizontal, bind, Except.bind, pure, Except.pure, OfNat.ofNat_ne_one, if_false,
+        show ((1 : Nat) = 2) = False from by simp]
+      exact makegrid_tail e n extras data names dims exn hd
+    | d2 N => rfl
+  | d2 E => cases north with
+    | d1 n => rfl
+    | d2 N =>
+      simp only [List.take_succ_cons, List.take_zero, ndimHorizontal, bind, Except.bind, pure, Except.pure, if_true, Gen.meshgridTo1d,
+        meshgridTo1d, checkCoordinates2, checkMeshgridE, List.all_cons, List.all_map, Function.comp_def, CoordArr.toArr2,
+        List.getD_cons_zero, List.getD_cons_succ, firstRow, firstCol, List.drop_succ_cons, List.drop_zero]
+      by_cases hr : (isRect E E.length (ncols E) && isRect N E.length (ncols E) && extras.all fun x => isRect x E.length (ncols E)) = true
+      · have hr' : (isRect E E.length (ncols E) && (isRect N E.length (ncols E) && extras.all fun x => isRect x E.length (ncols E))) = true := by
+          rw [← Bool.and_assoc]; exact hr
+        simp only [hr, hr', if_true, Bool.not_true, Bool.false_eq_true, if_false]
+        by_cases hm : checkMeshgrid E N = true
+        · simp only [hm, if_true, Bool.not_true, Bool.false_eq_true, if_false]
+          exact makegrid_tail _ _ extras data names dims exn hd
+        · simp [hm]
+      · have hr' : ¬ (isRect E E.length (ncols E) && (isRect N E.length (ncols E) && extras.all fun x => isRect x E.length (ncols E))) = true := by
+          rw [← Bool.and_assoc]; exact hr
+        simp [hr, hr']
+
+/-- **Orientation of `make_xarray_grid`, about the source as it is now:** for 1-D axes `e`, `n` and arrays of shape `(len(n), len(e))` the regenerated
+    function returns a grid whose `dims[1]` coordinate is `e` (the FIRST array handed over), whose `dims[0]` coordinate is `n`, with the extra
+    coordinates and the data variables under the names given, in order. -/
+theorem src_make_xarray_grid_1d (e n : List Rat) (extras data : List Arr2) (names exn : List String) (dims : String × String)
+    (hd : dims.1 ≠ dims.2) (hex : exn.length = extras.length) (hn : names.length = data.length)
+    (hrect : ((extras ++ data).all fun a => isRect a n.length e.length) = true) (hne : extras ≠ []) :
+    Gen.makeXarrayGrid (.d1 e :: .d1 n :: extras.map .d2) (some data) (some names) dims (some exn) =
+      .ok ⟨dims, e, n, exn.zip extras, names.zip data⟩ :=
+  (gen_make_xarray_grid_eq_model _ _ _ _ _ _ _ hd).trans (make_grid_1d e n extras data names exn dims hex hn hrect hne)
 
 end Verde.C18
